@@ -188,6 +188,7 @@ class World:
             self.loader = NsCachingChoiceLoader([FileSystemLoader(root), DictLoader(self.templates)], **kw)
         self.env = Environment(loader=self.loader, globals={"e": "E"} if cfg.get("eglob") else None)
         self.via = cfg.get("via", "kw")
+        self.mtime_back = cfg.get("mtime") == "back"
         self._dummy = self.env.from_string("")
 
     def write(self, layer: str, key: str, text: str, tick: int) -> None:
@@ -198,7 +199,9 @@ class World:
         os.makedirs(os.path.dirname(path), exist_ok=True)
         with open(path, "w", encoding="utf-8") as fd:
             fd.write(text)
-        t = (MTIME_BASE + tick) * 1_000_000_000
+        # modification times are distinct per write; they move forwards, or - as after a restore from backup,
+        # `cp -p`, a rollback - backwards
+        t = (MTIME_BASE + (-tick if self.mtime_back else tick)) * 1_000_000_000
         os.utime(path, ns=(t, t))
 
     def delete(self, layer: str, key: str) -> None:
@@ -471,7 +474,7 @@ def normalise(case: dict[str, Any], disabled: frozenset[str]) -> dict[str, Any]:
 
 
 def _decode(cfg: tuple[Any, ...], raw: list[tuple[int, ...]]) -> dict[str, Any]:
-    loader, cap, reload_, via, eglob, nn, nsi = cfg
+    loader, cap, reload_, via, eglob, nn, nsi, back = cfg
     names = NAMES[:nn]
     nss = NS_SETS[nsi]
     gs = [None, "g1", "g2"]
@@ -489,7 +492,8 @@ def _decode(cfg: tuple[Any, ...], raw: list[tuple[int, ...]]) -> dict[str, Any]:
             hist.append(["D", name, ns])
         else:
             hist.append(["F", "io" if m < 3 else "nf"])
-    return {"loader": loader, "cap": cap, "reload": reload_, "via": via, "eglob": eglob, "h": hist}
+    return {"loader": loader, "cap": cap, "reload": reload_, "via": via, "eglob": eglob, "h": hist,
+            "mtime": "back" if back else "fwd"}
 
 
 @st.composite
@@ -502,6 +506,7 @@ def history_case(draw: Any, disabled: frozenset[str]) -> dict[str, Any]:
         draw(st.integers(0, 3)) == 0,
         draw(st.integers(1, 3)),
         draw(st.integers(0, 3)),
+        draw(st.integers(0, 2)) == 0,
     )
     lo = draw(st.sampled_from([1, 3, 6, 12, 24]))
     op = st.tuples(st.integers(0, 19), st.integers(0, 2), st.integers(0, 2), st.integers(0, 2),
@@ -534,7 +539,7 @@ class C14(Prop):
     assumptions = [
         "namespaces are given a meaning by a subclass whose get_source/get_source_async serve '<ns>/<name>', the "
         "namespace read from the loader keyword argument or context.globals[namespace_key] as documented",
-        "file modification times are set explicitly (os.utime) and strictly increase with every write, so "
+        "file modification times are set explicitly (os.utime), are distinct for every write and either all increase or all decrease, so "
         "'fresh' in the model (same version) and in the loader (same mtime) coincide",
         "a hit predicted by the model must serve the snapshot (exact LRU retention is demanded, not merely 'some "
         "allowed text'); whether a load that fails while refreshing a resident entry counts as a use of the entry "
@@ -566,6 +571,8 @@ class C14(Prop):
                     continue  # observes nothing that its (already enumerated) prefix does not
                 for cfg in ENUM_CONFIGS:
                     yield {**cfg, "h": [list(op) for op in hist]}
+                    if cfg["loader"] != "dict" and cfg["reload"] and any(op[0] == "M" for op in hist):
+                        yield {**cfg, "h": [list(op) for op in hist], "mtime": "back"}
 
     def enumerated_is_exhaustive(self, tier: str) -> bool:
         return True
